@@ -382,7 +382,7 @@ def generate(repo):
                    'outer_radius = center_radius', 'arc_per_seg = 360 / nsegments',
                    'segment_angles = np.arange(nsegments, dtype=float) * arc_per_seg + rotation',
                    'inner_include = circle(inner_radius, rr)', 'outer_exclude = circle(outer_radius, rr)',
-                   'mask = arc & ang_mask', 'primary_mask[window] |= mask', 'hi = angle + arc_rad', 'lo = angle',
+                   'mask = arc & ang_mask', 'primary_mask[window] |= mask', 'lo = angle',
                    'primary_mask &= ~all_spiders')
         loop = [s_ for s_ in fn.body if isinstance(s_, ast.For)][0]
         rad = [s_ for s_ in loop.body if isinstance(s_, ast.Assign) and ast.unparse(s_.targets[0]) in ('inner_radius', 'outer_radius')]
@@ -435,16 +435,65 @@ def generate(repo):
             c = prop(trw, node.test)
             return f'(({c} ∧ {branch(node.body)}) ∨ (¬ {c} ∧ {chain(node.orelse)}))'
         wrap = chain(between)
+        # where the arc starts: `lo = angle`, whole turns taken off / added by while loops, then `hi = lo + arc_rad`
+        pre = body[:k_ang]
+        down = up = None
+        hi_expr, hi_touched, lo_seen = None, False, False
+        trl = VTr({'lo': ('lo', 's'), 'np.pi': ('pi', 's'), 'math.pi': ('pi', 's'), 'angle': ('angle', 's'), 'arc_rad': ('arc', 's')})
+        for st in pre:
+            txt = ast.unparse(st)
+            if isinstance(st, ast.Assign) and txt == 'lo = angle':
+                lo_seen = True
+            elif isinstance(st, ast.While) and lo_seen and 'lo' in {n_.id for n_ in ast.walk(st.test) if isinstance(n_, ast.Name)} \
+                    and 'hi' not in {n_.id for n_ in ast.walk(st) if isinstance(n_, ast.Name)}:
+                if len(st.body) != 1 or not isinstance(st.body[0], (ast.Assign, ast.AugAssign)):
+                    raise Untranslatable(f'keystone start loop: {txt}')
+                b0 = st.body[0]
+                val = b0.value if isinstance(b0, ast.Assign) else ast.BinOp(left=ast.Name(id='lo', ctx=ast.Load()), op=b0.op, right=b0.value)
+                tgt = ast.unparse(b0.targets[0] if isinstance(b0, ast.Assign) else b0.target)
+                if tgt != 'lo':
+                    raise Untranslatable(f'keystone start loop: {txt}')
+                if hi_expr is not None:
+                    hi_touched = True     # lo moves after hi was formed
+                    continue
+                pair = (prop(trl, st.test), trl.expr(ast.fix_missing_locations(val))[0])
+                if isinstance(val, ast.BinOp) and isinstance(val.op, ast.Sub) and down is None:
+                    down = pair
+                elif isinstance(val, ast.BinOp) and isinstance(val.op, ast.Add) and up is None:
+                    up = pair
+                else:
+                    raise Untranslatable(f'keystone start loop: {txt}')
+            elif isinstance(st, ast.Assign) and ast.unparse(st.targets[0]) == 'hi' and hi_expr is None:
+                hi_expr = trl.expr(st.value)[0]
+            elif lo_seen and {n_.id for n_ in ast.walk(st) if isinstance(n_, ast.Name) and isinstance(n_.ctx, ast.Store)} & {'lo', 'hi'}:
+                hi_touched = True        # a loop, a swap or a reassignment that moves hi away from lo + arc
+        if hi_expr is None or not lo_seen:
+            raise Untranslatable('keystone: lo / hi assignments not found')
+        down = down or ('False', 'lo')
+        up = up or ('False', 'lo')
+        KV = '{K : Type} [Add K] [Sub K] [Mul K] [Div K] [Neg K] [OfNat K 0] [OfNat K 1] [OfNat K 2]'
+        start = (f'def keyLoDownCond {PVARS} (pi lo : K) : Prop := {down[0]}\n'
+                 f'def keyLoDownStep {KV} (pi lo : K) : K := {down[1]}\n'
+                 f'def keyLoUpCond {PVARS} (pi lo : K) : Prop := {up[0]}\n'
+                 f'def keyLoUpStep {KV} (pi lo : K) : K := {up[1]}\n'
+                 f'def keyHi {KV} (angle lo arc : K) : K := {hi_expr}\n'
+                 f'def keyHiUntouched : Bool := {"false" if hi_touched else "true"}')
         return (f'def keyInner {{K : Type}} [Add K] (outerPrev gap : K) : K := {inner}\n'
                 f'def keyOuter {{K : Type}} [Add K] (inner width : K) : K := {outer}\n'
                 f'def keySector {PVARS} (rin rout lo hi r t : K) : Prop := ({xor} ∧ {angp})\n'
-                f'def keyAng {PVARS} (pi lo hi t : K) : Prop := {wrap}')
+                f'def keyAng {PVARS} (pi lo hi t : K) : Prop := {wrap}\n' + start)
     g.item('keystone', 'prysm/segmented.py:_composite_keystone_aperture',
            lambda: get_def(sg, '_composite_keystone_aperture'), keystone,
            (f'def keyInner {{K : Type}} [Add K] (outerPrev gap : K) : K := {M}.keyInner outerPrev gap\n'
             f'def keyOuter {{K : Type}} [Add K] (inner width : K) : K := {M}.keyOuter inner width\n'
             f'def keySector {PVARS} (rin rout lo hi r t : K) : Prop := {M}.keySector rin rout lo hi r t\n'
-            f'def keyAng {PVARS} (pi lo hi t : K) : Prop := {M}.keyAng pi lo hi t'))
+            f'def keyAng {PVARS} (pi lo hi t : K) : Prop := {M}.keyAng pi lo hi t\n'
+            f'def keyLoDownCond {PVARS} (pi lo : K) : Prop := lo > pi\n'
+            'def keyLoDownStep {K : Type} [Add K] [Sub K] [Mul K] [Div K] [Neg K] [OfNat K 0] [OfNat K 1] [OfNat K 2] (pi lo : K) : K := lo - 2 * pi\n'
+            f'def keyLoUpCond {PVARS} (pi lo : K) : Prop := lo < -pi\n'
+            'def keyLoUpStep {K : Type} [Add K] [Sub K] [Mul K] [Div K] [Neg K] [OfNat K 0] [OfNat K 1] [OfNat K 2] (pi lo : K) : K := lo + 2 * pi\n'
+            'def keyHi {K : Type} [Add K] [Sub K] [Mul K] [Div K] [Neg K] [OfNat K 0] [OfNat K 1] [OfNat K 2] (angle lo arc : K) : K := lo + arc\n'
+            'def keyHiUntouched : Bool := true'))
 
     def rect_branches():
         fn = get_def(ge, 'rectangle')
